@@ -61,6 +61,9 @@ type c13State struct {
 	// Key of the most recent server-authorization post (the one parked in a
 	// srvauth gap when an interferer is chosen).
 	lastSrvKey glow.PublicKey
+	// Device of the most recent device-related operation: an interferer is
+	// often aimed at the very device the parked operation is about.
+	focus *Device
 }
 
 var c13PostEffect = map[string]map[string]bool{
@@ -210,6 +213,7 @@ func (st *c13State) interferer(p *Parked) {
 	bans := len(h.N.Model.Bans)
 	off := h.N.Model.Offset
 	menu := w.C.Weighted("menu", 3, 2, 3, 2, 2, 1, 1, 1)
+	aim := st.focus // the device the parked operation is (most likely) about
 	if (p.Site == "srvauth.between" || p.Site == "srvauth.prenet") && w.C.Chance("list-op-in-list-gap", 1, 3) {
 		menu = 5
 	}
@@ -219,6 +223,14 @@ func (st *c13State) interferer(p *Parked) {
 		live := h.live()
 		if len(live) > 1 {
 			d := live[w.C.Int("victim", len(live))]
+			if aim != nil && w.C.Chance("aim-ban", 1, 2) {
+				for _, l := range live {
+					if l == aim {
+						d = aim
+						w.Probe("c13.aimed-ban")
+					}
+				}
+			}
 			a := d.Auth
 			a.Capacity += 17
 			st.opAuthorize(SignAuth(h.GCA, a))
@@ -233,7 +245,11 @@ func (st *c13State) interferer(p *Parked) {
 			st.opAuthorize(d.Auth)
 		}
 	case 2:
-		st.opReport()
+		if aim != nil && w.C.Chance("aim-report", 1, 2) {
+			st.opReportFor(aim)
+		} else {
+			st.opReport()
+		}
 	case 3: // rotate: move the clock past the trigger and let the loop run
 		if p.Site != "migrate.checked" && p.Site != "migrate.prelock" {
 			SetSlot(h.N.Model.Offset + 3201 + uint32(w.C.Int("past", 100)))
@@ -264,6 +280,11 @@ func (st *c13State) interferer(p *Parked) {
 
 func (st *c13State) opAuthorize(a glow.EquipmentAuthorization) {
 	n := st.h.N
+	for _, d := range st.h.Devs {
+		if d.ID == a.ShortID {
+			st.focus = d
+		}
+	}
 	res := &HTTPResult{}
 	var want AuthResult
 	op := &c13Op{kind: "auth"}
@@ -310,13 +331,26 @@ func (st *c13State) opRegister() {
 	st.run(op, func() *Task { return n.RequestAsync("register", "POST", "/api/v1/register-gca", body, res) })
 }
 
-func (st *c13State) opReport() {
+// pickDev chooses a device: the aimed-at one if given, else a seeded one; it
+// becomes the focus of later interferers.
+func (st *c13State) pickDev(aim *Device) *Device {
+	d := aim
+	if d == nil {
+		d = st.h.Devs[st.w.C.Int("dev", len(st.h.Devs))]
+	}
+	st.focus = d
+	return d
+}
+
+func (st *c13State) opReport() { st.opReportFor(nil) }
+
+func (st *c13State) opReportFor(aim *Device) {
 	h := st.h
 	if len(h.Devs) == 0 {
 		return
 	}
 	c := st.w.C
-	d := h.Devs[c.Int("dev", len(h.Devs))]
+	d := st.pickDev(aim)
 	now := Slot()
 	back := uint32(c.Int("back", 40))
 	if back > now {
@@ -436,7 +470,7 @@ func (st *c13State) opMigrate() {
 	if len(st.h.Devs) == 0 {
 		return
 	}
-	d := st.h.Devs[st.w.C.Int("dev", len(st.h.Devs))]
+	d := st.pickDev(nil)
 	em := SignMigration(st.h.GCA, server.EquipmentMigration{Equipment: d.Key.Pub, NewGCA: Key("gcaNew").Pub, NewShortID: d.ID + 100,
 		NewServers: []server.AuthorizedServer{SignServer(Key("gcaNew"), server.AuthorizedServer{PublicKey: Key("newsrv").Pub, Location: "new.sim", HttpPort: 1, TcpPort: 2, UdpPort: 3})}})
 	res := &HTTPResult{}
@@ -460,7 +494,7 @@ func (st *c13State) opSync() {
 	if len(st.h.Devs) == 0 {
 		return
 	}
-	d := st.h.Devs[st.w.C.Int("dev", len(st.h.Devs))]
+	d := st.pickDev(nil)
 	var wantBits map[uint32]bool
 	wantRefused := false
 	var wantOffset uint32
